@@ -79,6 +79,8 @@ def run_mc_models(names, workdir, tier):
         m = MC_MODELS[name]
         if tier == "quick" and m.get("thorough_only"):
             continue
+        if tier == "thorough" and m.get("quick_only"):
+            continue
         cfg = os.path.join(SPEC, "mc", m["cfg"])
         mod = os.path.join(SPEC, "mc", m["module"])
         md = os.path.join(workdir, "mc_" + name)
@@ -88,7 +90,7 @@ def run_mc_models(names, workdir, tier):
         jvm = ["-XX:+UseSerialGC", "-Xms64m", "-Xmx6g", "-Xmn64m"]
         if not m.get("big"):
             jvm.append("-XX:TieredStopAtLevel=1")       # short runs: skip the optimizing JIT
-        cmd = tlc_cmd(mod, cfg, md, per, extra_jvm=jvm, extra=["-coverage", "1"])
+        cmd = tlc_cmd(mod, cfg, md, per, extra_jvm=jvm)
         f = open(logf, "w")
         p = subprocess.Popen(cmd, stdout=f, stderr=subprocess.STDOUT, cwd=md)
         procs.append((name, m, p, f, logf, time.time()))
@@ -111,12 +113,6 @@ def run_mc_models(names, workdir, tier):
         mm = re.search(r"(\d+) states generated, (\d+) distinct states found", text)
         if mm:
             gen, dist = int(mm.group(1)), int(mm.group(2))
-        cov = {}
-        for line in text.splitlines():
-            c = COV_RE.match(line)
-            if c:
-                cov[c.group(1)] = int(c.group(4))
-        missing = [a for a in m.get("expect_actions", []) if cov.get(a, 0) == 0]
         replay = []
         for line in text.splitlines():
             if line.startswith('<<"REPLAY", "'):
@@ -127,6 +123,20 @@ def run_mc_models(names, workdir, tier):
                     replay.append(json.loads(json.loads(body)))
                 except Exception:
                     raise ToolError("cannot parse REPLAY line of %s: %s" % (name, line[:200]))
+        # coverage of the explored behaviours (vacuity check): how often each program counter /
+        # operation occurs on the exported paths.  (TLC's own -coverage slows the deep recursive
+        # invariants ~5x, so the models carry the path as a variable instead.)
+        cov = {}
+        for r in replay:
+            for pc in r.get("path", []):
+                cov[pc] = cov.get(pc, 0) + 1
+            for op in r.get("ops", []):
+                key = "op:" + str(op[1] if isinstance(op[0], int) else op[0])
+                cov[key] = cov.get(key, 0) + 1
+        missing = [a for a in m.get("expect_pcs", []) if cov.get(a, 0) == 0]
+        for label, pred in m.get("expect_replay", {}).items():
+            if not any(pred(r) for r in replay):
+                missing.append("behaviour:" + label)
         results[name] = {"ok": True, "generated": gen, "distinct": dist, "coverage": cov,
                          "missing_actions": missing, "replay": replay, "wall_s": round(time.time() - t0, 1), "log": logf}
         log("model %s: %d states (%d distinct), %d behaviours exported, %.1fs" % (name, gen, dist, len(replay), time.time() - t0))
@@ -494,7 +504,7 @@ def main():
                 "evaluations": len(cases), "distinct_nontrivial": distinct,
                 "rule": plan.get("rule", ""),
                 "models": {n: {"distinct_states": r["distinct"], "states_generated": r["generated"],
-                               "behaviours_exported": len(r["replay"]), "action_coverage": r["coverage"], "wall_s": r["wall_s"]}
+                               "behaviours_exported": len(r["replay"]), "steps_by_pc": r["coverage"], "wall_s": r["wall_s"]}
                            for n, r in mc.items()},
                 "events_by_kind": kinds,
                 "events_rejected_by_spec": len(fails),
@@ -502,7 +512,7 @@ def main():
                 "process_deaths": len(dead),
                 "worker_stdout_octets": dev_out + rel_out, "worker_stderr_octets": dev_err + rel_err,
                 "builds": ["dev (overflow checks, debug assertions)", "release"],
-                "exhaustive": bool(plan.get("exhaustive", False)),
+                "exhaustive": bool(plan.get("exhaustive", False) or (tier == "thorough" and plan.get("exhaustive_thorough", False))),
             },
             "assumptions": plan.get("assumptions", []),
             "wall_s": round(time.time() - t_start, 1),
